@@ -127,6 +127,82 @@ Proof.
   assert (H : seq_eqb pn (canon (p_name q)) = false) by (apply seq_eqb_neq; congruence).
   rewrite H. simpl. destruct (is_cmd E (p_name q) (p_meths q) pn); simpl; lia.
 Qed.
+
+(* ---- plugin-qualified names: the fold over irc.callbacks ---- *)
+Lemma lseq_eqb_len a b : lseq_eqb a b = true -> length a = length b.
+Proof. intro H. apply lseq_eqb_eq in H. subst. reflexivity. Qed.
+
+Lemma lseq_eqb_refl a : lseq_eqb a a = true.
+Proof. induction a; simpl; [reflexivity|]. rewrite seq_eqb_refl. exact IHa. Qed.
+
+Lemma fc_loop_app l1 l2 cargs : forall m a,
+  fc_loop E (l1 ++ l2) cargs m a = let '(m1, a1) := fc_loop E l1 cargs m a in fc_loop E l2 cargs m1 a1.
+Proof.
+  induction l1 as [|q l1 IH]; intros m a; simpl; [reflexivity|].
+  destruct (nonnil (p_getCommand E q cargs) && (length m <=? length (p_getCommand E q cargs))); apply IH.
+Qed.
+
+Definition short (cl : plug * list str) : Prop := length (snd cl) <= 1.
+
+Lemma fc_loop_short l cargs :
+  (forall q, In q l -> length (p_getCommand E q cargs) <= 1) ->
+  forall m a, length m <= 1 -> Forall short a ->
+  length (fst (fc_loop E l cargs m a)) <= 1 /\ Forall short (snd (fc_loop E l cargs m a)).
+Proof.
+  induction l as [|q l IH]; intros Hl m a Hm Ha; simpl; [split; assumption|].
+  assert (Hq := Hl q (or_introl eq_refl)).
+  destruct (nonnil (p_getCommand E q cargs) && (length m <=? length (p_getCommand E q cargs))).
+  - apply IH; [intros; apply Hl; right; assumption|exact Hq|].
+    apply Forall_app. split; [exact Ha|]. constructor; [exact Hq|constructor].
+  - apply IH; [intros; apply Hl; right; assumption|exact Hm|exact Ha].
+Qed.
+
+Lemma fc_loop_skip l cargs m a :
+  length m = 2 -> (forall q, In q l -> length (p_getCommand E q cargs) <= 1) ->
+  fc_loop E l cargs m a = (m, a).
+Proof.
+  intros Hm. induction l as [|q l IH]; intro Hl; simpl; [reflexivity|].
+  assert (Hq := Hl q (or_introl eq_refl)).
+  assert (Hle : (length m <=? length (p_getCommand E q cargs)) = false) by (apply Nat.leb_gt; lia).
+  rewrite Hle, andb_false_r. apply IH. intros; apply Hl; right; assumption.
+Qed.
+
+Lemma filter_short_none maxL a :
+  length maxL = 2 -> Forall short a -> filter (fun cl => lseq_eqb (snd cl) maxL) a = [].
+Proof.
+  intros Hm Ha. induction Ha as [|cl a Hcl Ha IH]; simpl; [reflexivity|].
+  destruct (lseq_eqb (snd cl) maxL) eqn:He; [|exact IH].
+  apply lseq_eqb_len in He. unfold short in Hcl. lia.
+Qed.
+
+(* `<plugin> <command> ...` selects exactly that plugin, whatever else is loaded, as long as no
+   sub-callback of any plugin carries the plugin's name (finding C14.F23 is that clash) *)
+Theorem qualified_reaches p l1 l2 a0 a1 rest pn c :
+  e_cbs E = l1 ++ p :: l2 ->
+  canon a0 = pn -> canon a1 = c -> canon (p_name p) = pn ->
+  find_group p pn = None -> find_group p c = None ->
+  is_cmd E (p_name p) (p_meths p) c = true ->
+  (forall q, In q (l1 ++ l2) -> canon (p_name q) <> pn /\ find_group q pn = None) ->
+  findCallbacksForArgs E (a0 :: a1 :: rest) = ([pn; c], [p]).
+Proof.
+  intros Hcbs H0 H1 Hn Hg1 Hg2 Hc Hoth.
+  unfold findCallbacksForArgs. rewrite Hcbs. cbn [map]. rewrite H0, H1.
+  set (cargs := pn :: c :: map canon rest).
+  assert (Hshort : forall q, In q (l1 ++ l2) -> length (p_getCommand E q cargs) <= 1).
+  { intros q Hq. destruct (Hoth q Hq). apply qualified_other; assumption. }
+  rewrite fc_loop_app.
+  destruct (fc_loop_short l1 cargs (fun q Hq => Hshort q (in_or_app _ _ _ (or_introl Hq))) [] []
+              ltac:(simpl; lia) ltac:(constructor)) as [Hm1 Ha1].
+  destruct (fc_loop E l1 cargs [] []) as [m1 a1']. cbn [fst snd] in Hm1, Ha1.
+  assert (Hown : p_getCommand E p cargs = [pn; c]) by (apply qualified_own; assumption).
+  cbn [fc_loop]. rewrite !Hown.
+  assert (Hle : (length m1 <=? length [pn; c]) = true) by (apply Nat.leb_le; simpl; lia).
+  rewrite Hle. cbn [nonnil andb].
+  rewrite (fc_loop_skip l2 cargs [pn; c] (a1' ++ [(p, [pn; c])]) eq_refl
+             (fun q Hq => Hshort q (in_or_app _ _ _ (or_intror Hq)))).
+  rewrite filter_app, (filter_short_none [pn; c] a1' eq_refl Ha1). cbn [filter snd app].
+  rewrite lseq_eqb_refl. reflexivity.
+Qed.
 End D.
 
 (* ---- exactly one plugin per finalEval ---- *)
